@@ -1,6 +1,7 @@
 """Generators for the XPath families (C02, C09, C11): random documents, typed random expressions
 built directly in the compiled shape (XpAst), printed both as an XPath string (for the library)
 and as an S-expression (for the extracted model), and a Python-side copy of the node numbering."""
+import re
 import struct
 
 # ------------------------------------------------------------------------------------------------
@@ -222,10 +223,46 @@ class ExprGen:
     def __init__(self, r, nodes=None, depth=3, variables=None):
         self.r, self.depth0 = r, depth
         self.vars = variables or {}
+        # string-values present in the document (text, attribute values): operands for comparisons
+        # whose truth hinges on equality with some node
+        self.values = sorted({n.value for n in (nodes or []) if n.kind in ("text", "attr") and n.value is not None and len(n.value) < 8})
+
+    def g_cmp_boundary(self):
+        """node-set compared with a string / number / boolean / node-set, every operator, both operand
+        orders, the scalar drawn from the document's own values so that '=' vs '<' vs '<=' differ"""
+        r = self.r
+        ns = r.choice([
+            ("path", None, [], [("descendant-or-self", "node", []), ("attribute", ("name", None, None), [])]),
+            ("path", None, [], [("descendant", "text", [])]),
+            ("path", None, [], [("root", "root", []), ("descendant", ("name", None, None), [])]),
+            ("path", None, [], [("child", ("name", None, None), [])]),
+            ("path", None, [], [("attribute", ("name", None, None), [])]),
+        ] + [("var", v) for v in self.vars_of("nodes")])
+        v = r.choice(self.values) if self.values and r.random() < 0.8 else r.choice(["1", "2", "3", "", "a", "NaN", "-1", "1.5"])
+        k = r.random()
+        if k < 0.4:
+            other = ("lit", v)
+        elif k < 0.7:
+            try:
+                float(v)
+                other = ("num", v.strip()) if re.fullmatch(r"\d+(\.\d*)?|\.\d+", v.strip()) else ("lit", v)
+            except ValueError:
+                other = ("lit", v)
+        elif k < 0.8:
+            other = ("fn", r.choice(["true", "false"]), [])
+        elif k < 0.9:
+            other = ("fn", "string", [("lit", v)])
+        else:
+            other = ("path", None, [], [("descendant-or-self", "node", []), ("attribute", ("name", None, None), [])])
+        op = r.choice(["eq", "ne", "lt", "lte", "gt", "gte"])
+        return (op, ns, other) if r.random() < 0.5 else (op, other, ns)
 
     # ---- typed generation ----
     def gen(self, ty=None, depth=None):
         d = self.depth0 if depth is None else depth
+        if ty is None and depth is None and self.r.random() < 0.07:
+            # boundary stream: comparisons that hinge on equality with a node's value
+            return self.g_cmp_boundary()
         if ty is None and depth is None and self.r.random() < 0.06:
             # boundary stream: string search with self-overlapping needles
             h, n = self.g_search(d)
